@@ -27,7 +27,7 @@ BOUNDS = {
     'quick': 'check_exception unit (uf and eq) + run loop with k=2 parts (eq); per part symbolic: raises or not, want form (none / free text <=3 chars / traceback block), '
              'exception line = module path in {"", m., p.q.} + name (1..2 word chars) + optional ": " + message (1..3 chars, any ASCII incl. colon, dot, newline), '
              'want final line built the same way, stack lines from a menu of 3; IGNORE_EXCEPTION_DETAIL, IGNORE_WANT, on_error symbolic',
-    'thorough': 'unit with messages <=3 chars, 3 stack menus and header whitespace; run loop k=2 (uf), k=3 (eq, uf)',
+    'thorough': 'unit with messages <=3 chars, 3 stack menus and header whitespace; run loop k=2 (uf), k=3 (eq, names and messages of one character)',
 }
 OUTSIDE = ('what the match relation is (C05/C06); real tracebacks of real exec (replayed only); SyntaxError-style multi-element '
            'format_exception_only output; wants whose dedent is not the identity; chained exceptions')
@@ -50,7 +50,7 @@ def jobs(tier):
                               % (QS, 2 if q else 3, 2 if q else 3, variant),
                     'splits': [3, 6, 9, 12], 'query_timeout_s': 120 if q else 600})
     # B. the run loop around it
-    cfgs = [('eq', 2, 2, 2)] if q else [('uf', 2, 2, 2), ('eq', 3, 2, 2), ('uf', 3, 1, 1)]
+    cfgs = [('eq', 2, 2, 2)] if q else [('uf', 2, 2, 2), ('eq', 3, 1, 1)]
     for variant, k, ncap, dcap in cfgs:
         out.append({'ob': 'run_table_%s_k%d' % (variant, k), 'harness': 'run', 'variant': variant, 'k': k, 'ncap': ncap, 'dcap': dcap,
                     'bounds': 'k=%d parts, each raising or not, want none / free text / traceback block; |name|<=%d, |message|<=%d, match=%s; IGNORE_EXCEPTION_DETAIL, IGNORE_WANT, on_error symbolic' % (k, ncap, dcap, variant),
